@@ -25,7 +25,10 @@ EXHAUSTIVE = {"quick": False, "thorough": False}
 NAMES = ["X-Test", "x-test", "X-TEST", "Set-Cookie", "set-cookie", "SET-COOKIE", "Content-Type", "content-type"]
 VALUES = ["a", "b c", "é", "Ž€", "\U0001F600", "", "x\"y\\z",
           # text whose UTF-8 bytes end or begin with 0x85 / 0xA0 (white space when read as latin-1), and white space kept as given
-          "voilà", "МИР", "Ġ", "lineŅ", "àb", " lead", "trail ", "\ttab\t", " "]
+          "voilà", "МИР", "Ġ", "lineŅ", "àb", " lead", "trail ", "\ttab\t", " ",
+          # latin-1 range text that, read as bytes, happens to be well-formed UTF-8 (what a double encoding looks like):
+          # it is text like any other
+          "Ã©", "price Â£ 5", "â\x80\x99", "Ã\x83Â©"]
 
 
 NONSTR = {"!0": 0, "!f": False, "!z": 0.0, "!b": b"", "!l": [], "!t": (), "!B": b"x", "!T": True}
